@@ -17,6 +17,8 @@ time). The repaired parser bounds the depth at four places; this rule checks tha
  4. variables     check_vars_are_not_cyclic compares the length of a chain of references and the list nesting of
                   a variable's *resolved* value with a constant and bails out (parse_vars hands the table out only
                   after that check: R-REC).
+ 6. size          every parsed action, and at an `@alias` reference the alias's whole action again, is charged to a
+                  bounded budget (a function that adds its parameter to a Cell counter, compares with a constant and bails).
  5. aliases       an `@alias` reference adds the recorded nesting of the alias's action to the current counter and
                   compares the sum with a constant (the action of an alias is spliced in without being parsed again).
 
@@ -102,7 +104,7 @@ def _is_copy_of_param(f, op, n, depth=0):
 
 
 def run(prog):
-    res = RuleResult("R-DEPTH", "the parser's recursion depth is bounded by explicit guards (reader, actions, templates, variables)", floor=7)
+    res = RuleResult("R-DEPTH", "the parser's recursion depth is bounded by explicit guards (reader, actions, templates, variables)", floor=8)
 
     # ---- 1. reader
     f = prog.fn_opt(KP + "sexpr::parse_with")
@@ -294,4 +296,40 @@ def run(prog):
                      "an `@alias` reference no longer adds the nesting of the alias's action to the current nesting counter and compares "
                      "the sum with a constant: the action of an alias is spliced in as it is, so chains of aliases build action trees of "
                      "unbounded depth (stack overflow in the chord-resolution pass or in do_action)")
+    # ---- 6. size: the tree of actions (aliases counted at every use) is bounded
+    counters = []
+    for g in prog.fns.values():
+        if g.crate != "kanata_parser" or g.derive or g.parent:
+            continue
+        sets = [bi for bi, t in g.calls() if (callee_name(t) or "").endswith("Cell::<T>::set") or (callee_name(t) or "").split("::")[-1] == "set"]
+        if not sets:
+            continue
+        for b in sorted(g.reachable()):
+            c = _cmp_with_const(g, b)
+            if c is None:
+                continue
+            add = _derives_from_call(g, c[1], ("saturating_add", "checked_add"))
+            if add is None or not add["args"] or _derives_from_call(g, add["args"][0], ("get",)) is None:
+                continue
+            # the added amount is a parameter (a size), not the constant 1 of a depth counter
+            if not any(_is_copy_of_param(g, add["args"][1], p_) for p_ in range(1, g.nargs + 1)):
+                continue
+            succs = [s_ for s_ in g.succs(b) if not g.is_cleanup(s_)]
+            if any(_reaches_err_return(g, s_, avoid=[o for o in succs if o != s_]) for s_ in succs):
+                counters.append(g)
+                break
+    users = set()
+    for g in counters:
+        for (cf, bi, t) in prog.call_sites(g.norm):
+            users.add(norm_name(cf.norm))
+    need = {"parse_nested": any(n.endswith("::parse_nested") or n in {x for x in guards} for n in users) if False else any(n in guards for n in users),
+            "parse_action_atom": (KP + "parse_action_atom") in users}
+    ok = bool(counters) and all(need.values())
+    res.inst("actions/size-budget", where="parser/src/cfg/mod.rs", counters=[g.norm.split("::")[-1] for g in counters], charged_in=sorted(k for k, v in need.items() if v), ok=ok)
+    res.oblige(ok)
+    if not ok:
+        res.viol("actions/size-budget", "parser/src/cfg/mod.rs",
+                 "the number of actions is not charged to a bounded budget in the nesting counter (every parsed action) and at `@alias` "
+                 "references (the alias's whole action again): aliases share actions, so a few dozen aliases that each use the previous "
+                 "one twice describe a tree of 2^n actions that the post-parse passes walk node by node")
     return res
